@@ -585,7 +585,7 @@ func runOnce(c Case) (res obs.Result) {
 				for _, r := range results {
 					is.record(r, call)
 				}
-				is.ctxErr = ctx.Err()
+				is.ctxErr = ctxErrOf(ctx)
 				cancel()
 				mu.Lock()
 				all = append(all, is)
@@ -804,6 +804,18 @@ func kindOf(all []*issued, id int) string {
 }
 
 func up(s string) string { return strings.ToUpper(s) }
+
+// ctxErrOf is ctx.Err(), except that a deadline which has passed counts as exceeded even if the context's own timer
+// has not fired yet (the synchronous path and the dialler derive connection deadlines from it, which can fire first).
+func ctxErrOf(ctx context.Context) error {
+	if e := ctx.Err(); e != nil {
+		return e
+	}
+	if dl, ok := ctx.Deadline(); ok && !time.Now().Before(dl) {
+		return context.DeadlineExceeded
+	}
+	return nil
+}
 
 // record notes one result of a call: payload for the oracle, message tree for the model comparison.
 func (is *issued) record(r rueidis.RedisResult, call *pipe.Call) {
